@@ -40,51 +40,191 @@ def run_impl(case: dict) -> dict:
         return _run_impl(case)
 
 
-def _run_impl(case: dict) -> dict:
-    """Everything is returned in node-index space."""
+# Input forms, options and operation sequences (all optional; absent = the plain form the check always had).  case["opts"]:
+#   uid_col / sd_col   names of the unique id / source dataset columns (settings unique_id_column_name / source_dataset_column_name)
+#   layout             multi-dataset input: "frames" one frame per dataset | "concat" ONE frame carrying its own source dataset column |
+#                      "own_sd" frames that each carry the column and cut the records arbitrarily (table aliases unrelated to the values)
+#   input_form         "frames" | "names" (tables registered in the database beforehand and handed over by NAME, names != aliases)
+#   aliases            "given" | "default" (no input_table_aliases: the source dataset values are Splink's __splink__input_table_<i>)
+#   extra_cols         further input columns (one with NULLs), every frame listing its columns in its own order
+#   empty_table        name of an additional input table without rows
+#   pred_form          "predict" register_table_predict | "named" table_management.register_table under a name | "api" db_api.register_table
+#   pred_cols          predictions carry predict()'s other columns (match_weight, match_key, gamma_*) in shuffled column order
+#   clusters_form      "splink" | "registered" (a clusters table registered by the caller: labels opts["cluster_labels"], no metadata)
+#   thr_form           "explicit" | "metadata" (argument omitted) | "weight" (clustered with threshold_match_weight, argument omitted) |
+#                      "weight_explicit" (clustered with threshold_match_weight, the equivalent probability passed explicitly)
+#   repeat_metrics     compute_graph_metrics is called twice on the same frames (both results are checked)
+#   thr_numpy          the thresholds are handed over as numpy.float64 (values computed with numpy / pandas)
+# A table is registered with overwrite=False (the default) the first time its name is used on an API and with overwrite=True afterwards.
+# case["null_edges"]: prediction rows whose match_probability is NULL; case["prelude"]: operations on the same database API / linker
+# BEFORE the evaluated call: {"op": "pass", "override": {...}, "linker": "own"|"main"} a complete register+cluster+metrics pass on the
+# case with some fields replaced ("linker": "own" = with a linker of its own, made before the main one; "settings": "shared" = both
+# linkers are built from ONE SettingsCreator object); {"op": "fail", "kind": ...} a call that raises; {"op": "delete_tables"};
+# {"op": "invalidate"}.
+def _o(case):
+    return case.get("opts") or {}
+
+
+def _names(case):
+    o = _o(case)
+    return o.get("uid_col", "unique_id"), o.get("sd_col", "source_dataset")
+
+
+def _idt(case):
+    return "str" if isinstance(case["ids"][0], str) else "int"
+
+
+def _multi(case):
+    return len(set(case["sds"])) > 1
+
+
+def _make_linker(api, case, rng, shared=None):
     from splink import Linker, SettingsCreator
 
     from harness import impl
 
-    api = impl.make_api(case["engine"], threads=2)
+    o = _o(case)
     ids, sds = case["ids"], case["sds"]
     n = len(ids)
-    rng = random.Random(case.get("shuffle", 0))
-    node_order = list(range(n))
-    rng.shuffle(node_order)
-    edges = list(case["edges"])
-    rng.shuffle(edges)
-    idt = "str" if isinstance(ids[0], str) else "int"
+    uid_col, sd_col = _names(case)
+    idt = _idt(case)
     names = sorted(set(sds))
     multi = len(names) > 1
-    frames = []
-    for nm in names:
-        rows_ = [{"unique_id": ids[i], "v": "x"} for i in node_order if sds[i] == nm]
-        frames.append(impl.typed_frame(rows_, {"unique_id": idt, "v": "str"}))
-    settings = SettingsCreator(
-        link_type=case.get("link_type", "link_and_dedupe") if multi else "dedupe_only",
-        comparisons=[],
-        blocking_rules_to_generate_predictions=[],
-    )
-    linker = Linker(frames if multi else frames[0], settings, api, input_table_aliases=names if multi else None)
+    node_order = list(range(n))
+    rng.shuffle(node_order)
+
+    def frame(members, with_sd):
+        cols = {uid_col: idt, "v": "str"}
+        if with_sd:
+            cols[sd_col] = "str"
+        if o.get("extra_cols"):
+            cols.update({"note": "str", "amount": "float"})
+            if not multi:  # a dedupe_only table that still carries a source dataset column: the ids alone identify the records
+                cols[sd_col] = "str"
+        order = list(cols)
+        if o.get("extra_cols"):
+            rng.shuffle(order)
+        rows_ = []
+        for i in members:
+            row = {uid_col: ids[i], "v": "x", sd_col: sds[i] if multi else "ab"[i % 2], "note": None if i % 3 else f"n{i}", "amount": i / 4}
+            rows_.append({c: row[c] for c in order})
+        return impl.typed_frame(rows_, {c: cols[c] for c in order})
+
+    layout = o.get("layout", "frames") if multi else "frames"
     if not multi:
-        erows = [{"unique_id_l": ids[a], "unique_id_r": ids[b], "match_probability": p} for a, b, p in edges]
-        types = {"unique_id_l": idt, "unique_id_r": idt, "match_probability": "float"}
+        tables = [("people", frame(node_order, False))]
+    elif layout == "concat":
+        tables = [("everything", frame(node_order, True))]
+    elif layout == "own_sd":
+        k = rng.choice([2, 3])
+        cut = [[], [], []]
+        for pos, i in enumerate(node_order):
+            cut[pos % k if pos < k else rng.randrange(k)].append(i)
+        tables = [(f"part_{j}", frame(cut[j], True)) for j in range(k) if cut[j]]
     else:
-        erows = [
-            {"source_dataset_l": sds[a], "unique_id_l": ids[a], "source_dataset_r": sds[b], "unique_id_r": ids[b], "match_probability": p}
-            for a, b, p in edges
-        ]
-        types = {"source_dataset_l": "str", "unique_id_l": idt, "source_dataset_r": "str", "unique_id_r": idt, "match_probability": "float"}
-    df_predict = linker.table_management.register_table_predict(impl.typed_frame(erows, types), overwrite=True)
-    thr = case["thr"]
-    cc = linker.clustering.cluster_pairwise_predictions_at_threshold(df_predict, threshold_match_probability=case.get("thr_cluster", thr))
-    key = {_key(sds[i], ids[i], multi): i for i in range(n)}
-    clustering = {}
-    for r in cc.as_record_dict():
-        k = _key(r.get("source_dataset"), r["unique_id"], multi)
-        clustering[key[k]] = str(r["cluster_id"])
-    gm = linker.clustering.compute_graph_metrics(df_predict, cc, threshold_match_probability=thr)
+        tables = [(nm, frame([i for i in node_order if sds[i] == nm], False)) for nm in names]
+        if o.get("empty_table"):
+            tables.append((o["empty_table"], frame([], False)))
+            tables.sort(key=lambda t: t[0])
+    given = o.get("aliases", "given" if multi else "default") == "given"
+    aliases = [t[0] for t in tables] if given else None
+    inputs = [t[1] for t in tables]
+    if o.get("input_form") == "names":
+        inputs = []
+        for j, (_, fr) in enumerate(tables):
+            api.register_table(fr, f"raw_tbl_{j}", overwrite=True)
+            inputs.append(f"raw_tbl_{j}")
+    kw = {}
+    if "uid_col" in o:
+        kw["unique_id_column_name"] = uid_col
+    if "sd_col" in o:
+        kw["source_dataset_column_name"] = sd_col
+    kw["link_type"] = case.get("link_type", "link_and_dedupe") if multi else "dedupe_only"
+    skey = json.dumps(kw, sort_keys=True)
+    if shared is not None and skey in shared:
+        settings = shared[skey]  # object reuse: one SettingsCreator serves two linkers
+    else:
+        settings = SettingsCreator(comparisons=[], blocking_rules_to_generate_predictions=[], **kw)
+        if shared is not None:
+            shared[skey] = settings
+    one = len(inputs) == 1
+    return Linker(inputs[0] if one else inputs, settings, api, input_table_aliases=(aliases[0] if one else aliases) if aliases else None)
+
+
+def _pred_frame(case, rng, with_probability=True):
+    from harness import impl
+
+    o = _o(case)
+    ids, sds = case["ids"], case["sds"]
+    uid_col, sd_col = _names(case)
+    idt = _idt(case)
+    rows_ = [(a, b, p) for a, b, p in case["edges"]] + [(a, b, None) for a, b in case.get("null_edges") or []]
+    rng.shuffle(rows_)
+    cols = {}
+    if _multi(case):
+        cols = {f"{sd_col}_l": "str", f"{uid_col}_l": idt, f"{sd_col}_r": "str", f"{uid_col}_r": idt}
+    else:
+        cols = {f"{uid_col}_l": idt, f"{uid_col}_r": idt}
+    if with_probability:
+        cols["match_probability"] = "nfloat"
+    order = list(cols)
+    if o.get("pred_cols"):
+        cols.update({"match_weight": "nfloat", "match_key": "str", "gamma_v": "int", "v_l": "str", "v_r": "str"})
+        order = list(cols)
+        rng.shuffle(order)
+    out = []
+    for a, b, p in rows_:
+        row = {f"{sd_col}_l": sds[a], f"{uid_col}_l": ids[a], f"{sd_col}_r": sds[b], f"{uid_col}_r": ids[b], "match_probability": p,
+               "match_weight": None if p is None else (p - 0.5) * 20, "match_key": "0", "gamma_v": 1, "v_l": "x", "v_r": "x"}
+        out.append({c: row[c] for c in order})
+    import pandas as pd
+
+    types = {c: cols[c] for c in order}
+    df = impl.typed_frame(out, {c: ("float" if t == "nfloat" else t) for c, t in types.items()})
+    if case.get("null_edges"):
+        for c, t in types.items():
+            if t == "nfloat":  # a nullable column: the missing probabilities reach the engine as NULL, not as NaN
+                df[c] = pd.array([r[c] for r in out], dtype="Float64")
+    return df
+
+
+def _again(api, name) -> bool:
+    """overwrite flag for a registration: False (the default) the first time the name is used on this API, True afterwards."""
+    seen = api.__dict__.setdefault("_c19_registered_names", set())
+    again = name in seen
+    seen.add(name)
+    return again
+
+
+def _register_predict(api, linker, case, df, name=None):
+    form = _o(case).get("pred_form", "predict")
+    if name is None and form == "predict":
+        # the name depends on the linker's cache uid: another linker (or invalidate_cache) gives another name
+        return linker.table_management.register_table_predict(df, overwrite=_again(api, "predict:" + linker._cache_uid))
+    name = name or ("my_edges" if form == "named" else "Edges_Tbl")
+    if form == "api":
+        return api.register_table(df, name, overwrite=_again(api, name))
+    return linker.table_management.register_table(df, name, overwrite=_again(api, name))
+
+
+def _clusters_frame(case, rng):
+    from harness import impl
+
+    o = _o(case)
+    ids, sds = case["ids"], case["sds"]
+    uid_col, sd_col = _names(case)
+    lab = o["cluster_labels"]
+    cols = {"cluster_id": "str" if isinstance(lab[0], str) else "int", uid_col: _idt(case)}
+    if _multi(case):
+        cols[sd_col] = "str"
+    order = list(cols)
+    rng.shuffle(order)
+    idx = list(range(len(ids)))
+    rng.shuffle(idx)
+    return impl.typed_frame([{c: {"cluster_id": lab[i], uid_col: ids[i], sd_col: sds[i]}[c] for c in order} for i in idx], {c: cols[c] for c in order})
+
+
+def _tables(case, gm, key):
     nodes = [
         (key.get(str(r["composite_unique_id"]), -1), str(r["cluster_id"]), int(r["node_degree"]), float(r["node_centrality"]))
         for r in gm.nodes.as_record_dict()
@@ -97,15 +237,129 @@ def _run_impl(case: dict) -> dict:
         (str(r["cluster_id"]), int(r["n_nodes"]), _flt(r["n_edges"]), _flt(r["density"]), _flt(r["cluster_centralisation"]))
         for r in gm.clusters.as_record_dict()
     ]
-    out = {"clustering": [clustering.get(i) for i in range(n)], "nodes": sorted(nodes), "edges": sorted(edges_out, key=lambda t: (t[0], t[1], t[2] is True)),
-           "clusters": sorted(clusters, key=lambda t: t[0])}
+    return {"nodes": sorted(nodes), "edges": sorted(edges_out, key=lambda t: (t[0], t[1], t[2] is True)), "clusters": sorted(clusters, key=lambda t: t[0])}
+
+
+def _prepare(api, linker, case, rng):
+    """Register the predictions and obtain the clustering; everything in node-index space."""
+    o = _o(case)
+    ids, sds = case["ids"], case["sds"]
+    n = len(ids)
+    multi = _multi(case)
+    uid_col, sd_col = _names(case)
+    df_predict = _register_predict(api, linker, case, _pred_frame(case, rng))
+    thr = case["thr"]
+    key = {_key(sds[i], ids[i], multi): i for i in range(n)}
+    if len(key) != n:
+        raise core.HarnessError("generated records do not have distinct composite ids")
+    if o.get("clusters_form") == "registered":
+        cc = linker.table_management.register_table(_clusters_frame(case, rng), "my_clusters", overwrite=_again(api, "my_clusters"))
+    elif o.get("thr_form") in ("weight", "weight_explicit"):
+        cc = linker.clustering.cluster_pairwise_predictions_at_threshold(df_predict, threshold_match_weight=_num(case, o["thr_weight"]))
+    else:
+        cc = linker.clustering.cluster_pairwise_predictions_at_threshold(df_predict, threshold_match_probability=_num(case, case.get("thr_cluster", thr)))
+    clustering = {}
+    for r in cc.as_record_dict():
+        k = _key(r.get(sd_col), r[uid_col], multi)
+        clustering[key[k]] = str(r["cluster_id"])
+    return df_predict, cc, key, [clustering.get(i) for i in range(n)]
+
+
+def _pass(api, linker, case, rng) -> dict:
+    """One complete use: register predictions, cluster, compute_graph_metrics."""
+    o = _o(case)
+    df_predict, cc, key, clustering = _prepare(api, linker, case, rng)
+    kw = {} if o.get("thr_form") in ("metadata", "weight") else {"threshold_match_probability": _num(case, case["thr"])}
+    gm = linker.clustering.compute_graph_metrics(df_predict, cc, **kw)
+    out = {"clustering": clustering, **_tables(case, gm, key)}
+    if o.get("repeat_metrics"):
+        gm2 = linker.clustering.compute_graph_metrics(df_predict, cc, **kw)
+        out = {"clustering": clustering, **_tables(case, gm2, key), "first_call": _tables(case, gm, key)}
     if case.get("second_call"):
-        # excluded point (defect F11, another property): a second call on the same linker
+        # (thorough, recorded only) a second call on the same linker: was defect F11, repaired since
         try:
-            linker.clustering.compute_graph_metrics(df_predict, cc, threshold_match_probability=thr)
+            linker.clustering.compute_graph_metrics(df_predict, cc, **kw)
             out["second_call"] = "ok"
         except Exception as e:  # noqa: BLE001
             out["second_call"] = f"{type(e).__name__}: {str(e)[:120]}"
+    return out
+
+
+def _num(case, x):
+    if _o(case).get("thr_numpy"):
+        import numpy as np
+
+        return np.float64(x)
+    return x
+
+
+def _sub(case, override):
+    sub = dict(case, **override)
+    if "opts" not in override:
+        sub.pop("opts", None)
+    for k in ("prelude", "more_calls"):
+        sub.pop(k, None)
+    return sub
+
+
+def _expected_failure(fn) -> str:
+    """Run a call that is meant to fail inside Splink and say how it ended; an exception from harness code is not swallowed."""
+    import traceback
+
+    try:
+        fn()
+        return "no exception"
+    except Exception as e:  # noqa: BLE001
+        if f'File "{core.REPO}/' not in traceback.format_exc():
+            raise
+        return f"{type(e).__name__}: {str(e)[:80]}"
+
+
+def _run_impl(case: dict) -> dict:
+    from harness import impl
+
+    api = impl.make_api(case["engine"], threads=2)
+    rng = random.Random(case.get("shuffle", 0))
+    linker = None
+    outcomes = []
+    shared = {} if any(op.get("settings") == "shared" for op in case.get("prelude") or []) else None
+    for op in case.get("prelude") or []:
+        kind = op["op"]
+        if kind == "pass":
+            sub = dict(case, **op.get("override", {}))
+            sub.pop("prelude", None)
+            if op.get("linker") == "own":
+                _pass(api, _make_linker(api, sub, rng, shared), sub, rng)
+                continue
+            linker = linker or _make_linker(api, case, rng)
+            _pass(api, linker, sub, rng)
+            continue
+        linker = linker or _make_linker(api, case, rng)
+        if kind == "delete_tables":
+            linker.table_management.delete_tables_created_by_splink_from_db()
+        elif kind == "invalidate":
+            linker.table_management.invalidate_cache()
+        elif kind == "fail":
+            df_predict, cc, _, _ = _prepare(api, linker, case, rng)
+            if op["kind"] == "noedge":  # a threshold above every probability: no edge is left (igraph step)
+                f = lambda: linker.clustering.compute_graph_metrics(df_predict, cc, threshold_match_probability=2.0)  # noqa: E731
+            elif op["kind"] == "no_thr":  # clusters registered by hand carry no threshold and none is given
+                import pandas as pd
+
+                reg = linker.table_management.register_table(pd.DataFrame(cc.as_record_dict()), "clusters_by_hand", overwrite=_again(api, "clusters_by_hand"))
+                f = lambda: linker.clustering.compute_graph_metrics(df_predict, reg)  # noqa: E731
+            else:  # predictions without a match_probability column: the first statement fails
+                bad = _register_predict(api, linker, case, _pred_frame(case, rng, with_probability=False), name="edges_without_probability")
+                f = lambda: linker.clustering.compute_graph_metrics(bad, cc, threshold_match_probability=case["thr"])  # noqa: E731
+            outcomes.append(f"{op['kind']}: " + _expected_failure(f))
+        else:
+            raise core.HarnessError(f"unknown prelude op {kind}")
+    linker = linker or _make_linker(api, case, rng, shared)
+    out = _pass(api, linker, case, rng)
+    if case.get("more_calls"):  # further evaluated calls on the same linker and predictions (other thresholds)
+        out["more_calls"] = [_pass(api, linker, _sub(case, ov), rng) for ov in case["more_calls"]]
+    if outcomes:
+        out["prelude_outcomes"] = outcomes
     return out
 
 
@@ -325,6 +579,26 @@ def make_ids(rng: random.Random, n: int, idtype: str, k_tables: int):
             ids = rng.sample(range(0, 10 * n + 10), n)
     elif idtype == "str":
         ids = [f"{x:05d}" for x in rng.sample(range(0, 10 * n + 10), n)]
+    elif idtype == "bigint":
+        # negative ids, 0, ids beyond 2^31 and beyond 2^53 (not exact as doubles); overlapping across datasets
+        pool = [0, -1, 1, -(2**31) - 1, 2**31, 2**53, 2**53 + 1, 2**53 + 2, 2**62, -(2**62)]
+        pool += [x for k in range(n) for x in (-2 - k, 2**40 + k)]
+        ids, used = [], set()
+        for i in range(n):
+            cand = [x for x in pool if (sds[i], x) not in used]
+            x = rng.choice(cand[: 10 + n // 2])
+            used.add((sds[i], x))
+            ids.append(x)
+    elif idtype == "strweird":
+        # empty string, blanks, quotes, case pairs, leading zeros, numeric look-alikes, the composite-id separator, NULL look-alikes
+        pool = ["", " ", "a b", "o'x", 'q"t', "A", "a", "\u00e9", "01", "1", "1.0", "-__-", "a-__-b", "NULL", "None", "nan", "a ", " a", "%", "_", "a;b", "--"]
+        pool += [f"w{k}" for k in range(n)]
+        ids, used = [], set()
+        for i in range(n):
+            cand = [x for x in pool if (sds[i], x) not in used]
+            x = rng.choice(cand[: len(pool) - n + 4])
+            used.add((sds[i], x))
+            ids.append(x)
     else:  # strmixed: "10" < "9" as strings
         ids = [str(x) for x in rng.sample(range(0, 10 * n + 10), n)]
     return ids, sds
@@ -429,7 +703,351 @@ def gen_cases(ctx: core.Ctx) -> list[dict]:
         base = [c for c in cases if 4 <= len(c["ids"]) <= 40]
         for c in rng.sample(base, min(len(base), ctx.budget(120, 600))):
             cases.append(dict(c, shrink_consts=rng.choice([2, 3, 5]), tag=c["tag"] + "+shrunk-consts", shuffle=rng.randrange(1 << 30)))
+    # (5) input forms, options and flags of the public functions the anchors name, on fresh structured graphs (see the table above
+    # _make_linker): one option in turn (so that each is met on both engines, with one and with several input tables) plus 0-2 more
+    k = 0
+    for _ in range(ctx.budget(120, 800)):
+        n, pairs, tag = random_graph(rng, 14 if rng.random() < 0.6 else nmax)
+        if not pairs:
+            continue
+        multi = k % 3 != 0
+        menu = OPTIONS_ANY + (OPTIONS_MULTI if multi else OPTIONS_SINGLE)
+        # (the column-name options weigh more among the companions: hard-coded names are the commonest slip)
+        chosen = [menu[(k // 3) % len(menu)]] + rng.sample(menu + (["sd_col", "sd_col", "uid_col", "concat"] if multi else ["uid_col"]), rng.choice([0, 1, 2]))
+        k += 1
+        c = option_case(rng, n, pairs, chosen, engine=eng(), tag=tag, multi=multi)
+        if rng.random() < 0.15 and _o(c).get("thr_form") in (None, "metadata") and not _o(c).get("thr_int"):
+            c = fine_threshold_variant(rng, c)  # thresholds needing more than six decimals, also through the metadata
+        cases.append(c)
+    # (6) operation sequences on ONE database API / ONE linker before the evaluated call, on small graphs
+    k = 0
+    for _ in range(ctx.budget(68, 460)):
+        n, pairs, tag = random_graph(rng, 12)
+        if not pairs:
+            continue
+        # (every kind of sequence on both engines: the engine alternates from one round of kinds to the next)
+        cases.append(sequence_case(rng, n, pairs, SEQUENCES[k % len(SEQUENCES)], engine=engines[(k + k // len(SEQUENCES)) % 2], tag=tag))
+        k += 1
+    # (7) probabilities EXACTLY on a threshold that needs 16-17 significant digits (a pair's own probability taken as threshold, a threshold
+    # computed from a match weight by Splink, values next to 0 / 1); the on-threshold edges close cycles, so the components do not
+    # depend on them, or the clusters are registered by the caller
+    for k in range(ctx.budget(30, 200)):
+        for _ in range(50):
+            n, pairs, tag = random_graph(rng, 14 if rng.random() < 0.6 else nmax)
+            if len(pairs) > n - 1 or (pairs and k % 4 == 3):
+                break
+        if pairs:
+            cases.append(on_threshold_case(rng, n, pairs, engine=engines[(k // 2) % 2], tag=tag, registered=k % 4 == 3))
     return cases
+
+
+def on_threshold_case(rng, n, pairs, *, engine, tag, registered):
+    """Three thresholds with 16-17 significant digits are asked for in turn on the same predictions (as when exploring thresholds);
+    every kept edge outside a spanning forest has a probability EXACTLY equal to one of them."""
+    c = decorate(rng, n, pairs, engine=engine, tag=tag, probs=rng.choice(["all1", "all1", "grid"]))
+    kept = [(a, b) for a, b, p in c["edges"] if p >= c["thr"]]
+    below = [(a, b) for a, b, p in c["edges"] if p < c["thr"]]
+    have = {frozenset(e[:2]) for e in c["edges"]}
+    for _ in range(rng.choice([0, 1, 3])):  # further pairs scored below every threshold
+        a, b = rng.sample(range(n), 2)
+        if frozenset((a, b)) not in have:
+            have.add(frozenset((a, b)))
+            below.append((a, b))
+    kind = rng.choice(["random", "random", "weight", "weight", "near1", "near0"])
+    o, ws = {}, None
+    if kind == "weight":
+        ws = sorted({round(rng.uniform(-8, 20), rng.choice([0, 1, 2])) for _ in range(3)})
+        ts = [2.0**w / (1 + 2.0**w) for w in ws]
+        o = {"thr_form": rng.choice(["weight", "weight_explicit"])}
+    else:
+        ts = sorted({{"random": 0.01 + 0.98 * rng.random(), "near1": 1.0 - rng.random() * 1e-6, "near0": rng.random() * 1e-6}[kind] for _ in range(3)})
+        if rng.random() < 0.4:
+            o = {"thr_form": "metadata"}
+    par = list(range(n))
+
+    def find(x):
+        while par[x] != x:
+            par[x] = par[par[x]]
+            x = par[x]
+        return x
+
+    rng.shuffle(kept)
+    edges = []
+    for a, b in kept:
+        if find(a) != find(b) and not registered:
+            par[find(a)] = find(b)
+            edges.append((a, b, rng.choice([1.0, ts[-1] + (1.0 - ts[-1]) * rng.uniform(0.05, 1.0)])))  # a spanning forest clearly above
+        else:
+            edges.append((a, b, rng.choice(ts)))  # exactly on a threshold: kept at it (>=) and below it
+    edges += [(a, b, ts[0] * rng.uniform(0.0, 0.95)) for a, b in below]
+    c["edges"] = edges
+    if registered:
+        o = {"clusters_form": "registered"}
+    calls = []
+    for j, t in enumerate(ts):
+        oj = dict(o)
+        if ws:
+            oj["thr_weight"] = ws[j]
+        if registered:
+            if not any(p >= t for _, _, p in edges):
+                continue
+            oj["cluster_labels"] = component_labels(rng, dict(c, thr=t))
+        calls.append({"thr": t, "opts": oj} if oj else {"thr": t})
+    rng.shuffle(calls)
+    c.update(calls[0])
+    if len(calls) > 1:
+        c["more_calls"] = calls[1:]
+    c["on_threshold"] = kind
+    c["tag"] = tag + "+on_threshold"
+    return c
+
+
+def random_graph(rng, nmax):
+    parts, tags = [], []
+    for _ in range(rng.choice([1, 1, 2, 3])):
+        fam = rng.choice(["path", "cycle", "star", "cliques", "caterpillar", "gnp", "gnp", "forest", "grid", "clique", "tree"])
+        n = rng.randint(2, max(2, nmax // 2))
+        if fam == "clique":
+            n = min(n, 7)
+            pairs = [(a, b) for a in range(n) for b in range(a + 1, n)]
+        elif fam == "tree":
+            pairs = [(rng.randrange(i), i) for i in range(1, n)]
+        else:
+            pairs = graphs.family(rng, fam, n)
+        parts.append((n, pairs))
+        tags.append(fam)
+    iso = rng.choice([0, 0, 1, 2])
+    if iso:
+        parts.append((iso, []))
+    n, pairs = union(parts)
+    perm = list(range(n))
+    rng.shuffle(perm)
+    return n, [(perm[a], perm[b]) for a, b in pairs], "+".join(sorted(set(tags))) + ("+iso" if iso else "")
+
+
+OPTIONS_ANY = ["uid_col", "extra_cols", "pred_named", "pred_api", "pred_cols", "thr_metadata", "thr_weight", "thr_weight_explicit", "registered",
+               "null_edges", "bigint", "strweird", "input_names", "repeat_metrics", "thr_int", "thr_numpy"]
+OPTIONS_SINGLE = ["alias_given"]
+OPTIONS_MULTI = ["sd_col", "concat", "own_sd", "default_alias", "empty_table", "sd_mixedcase", "sd_weird"]
+WEIGHTS = [-3, -1, 0, 0.0, 1, 2, 2.5, 4, 21, -0.0]  # 0 / 0.0 / -0.0: falsy but given; 21 -> 0.99999952 needs more than six decimals
+
+
+def component_labels(rng, case, kind=None):
+    """Cluster ids a caller could register for the thresholded graph of `case`: its connected components under arbitrary labels."""
+    n = len(case["ids"])
+    par = list(range(n))
+
+    def find(x):
+        while par[x] != x:
+            par[x] = par[par[x]]
+            x = par[x]
+        return x
+
+    for a, b, p in case["edges"]:
+        if p >= case["thr"]:
+            par[find(a)] = find(b)
+    roots = sorted({find(i) for i in range(n)})
+    kind = kind or rng.choice(["int", "str", "member"])
+    if kind == "int":
+        vals = rng.sample([0, -1] + list(range(1, 3 * n + 3)), len(roots))
+    elif kind == "str":
+        vals = rng.sample(["", " ", "NULL", "c 1", "C", "c"] + [f"c{j}" for j in range(n)], len(roots))
+    else:  # as Splink does: the composite id of a member
+        multi = len(set(case["sds"])) > 1
+        vals = []
+        for r in roots:
+            m = rng.choice([i for i in range(n) if find(i) == r])
+            vals.append(_key(case["sds"][m], case["ids"][m], multi))
+    lab = dict(zip(roots, vals))
+    return [lab[find(i)] for i in range(n)]
+
+
+def relabel_datasets(case, names):
+    """Rename the source datasets (in sorted order of the old names)."""
+    old = sorted(set(case["sds"]))
+    m = dict(zip(old, names))
+    case["sds"] = [m[x] for x in case["sds"]]
+
+
+def apply_options(rng, case, chosen):
+    o = case.setdefault("opts", {})
+    multi = len(set(case["sds"])) > 1
+    for opt in chosen:
+        if opt == "uid_col":
+            o["uid_col"] = rng.choice(["id", "rec id", "Unique_ID", "group", "uid"])
+        elif opt == "sd_col" and multi:
+            o["sd_col"] = rng.choice(["src", "Src", "src dataset", "group", "dataset"])
+        elif opt == "extra_cols":
+            o["extra_cols"] = True
+        elif opt in ("pred_named", "pred_api"):
+            o["pred_form"] = opt[5:]
+        elif opt == "pred_cols":
+            o["pred_cols"] = True
+        elif opt == "input_names":
+            o["input_form"] = "names"
+        elif opt == "alias_given" and not multi:
+            o["aliases"] = "given"
+        elif opt == "repeat_metrics":
+            o["repeat_metrics"] = True
+        elif opt == "thr_numpy" and not o.get("thr_int"):
+            o["thr_numpy"] = True
+        elif opt == "null_edges":
+            n = len(case["ids"])
+            case["null_edges"] = [tuple(rng.sample(range(n), 2)) for _ in range(rng.randint(1, 4))]
+        elif opt in ("concat", "own_sd") and multi and "layout" not in o and o.get("aliases") != "default" and "empty_table" not in o:
+            o["layout"] = opt
+        elif opt == "empty_table" and multi and "layout" not in o and o.get("aliases") != "default":
+            o["empty_table"] = rng.choice(["A0", "z9", "b0"])  # sorts first / last / in between
+        elif opt == "default_alias" and multi and "layout" not in o and "empty_table" not in o and "sd_names" not in o:
+            o["aliases"] = "default"
+            relabel_datasets(case, [f"__splink__input_table_{j}" for j in range(3)])
+        elif opt == "sd_mixedcase" and multi and o.get("aliases") != "default" and "sd_names" not in o:
+            o["sd_names"] = "mixedcase"
+            relabel_datasets(case, rng.choice([["B", "_c", "a"], ["T10", "T2", "t1"], ["a", "a_b", "ab"]]))
+        elif opt == "sd_weird" and multi and o.get("aliases") != "default" and "sd_names" not in o and "empty_table" not in o:
+            # values that cannot be table names: only where the data carries the column
+            o["sd_names"] = "weird"
+            o.setdefault("layout", rng.choice(["concat", "own_sd"]))
+            relabel_datasets(case, sorted(rng.sample(["a b", "A", "a", "10", "9", "", "x-__-y", "o'k", " a", "NULL"], 3)))
+        elif opt == "thr_int" and "thr_form" not in o and "thr_cluster" not in case and not o.get("thr_numpy"):
+            # the threshold given as a Python int: 1 on all-1 probabilities, 0 (falsy) keeps every edge
+            if all(p == 1.0 for _, _, p in case["edges"]):
+                case["thr"] = rng.choice([0, 1])
+                o["thr_int"] = True
+    if "sd_col" in o and o["sd_col"].lower() == o.get("uid_col", "unique_id").lower():
+        o["sd_col"] = "src"  # (two columns of one name are no input)
+    # thresholds last: they need the final edges
+    for opt in chosen:
+        if "thr_form" in o or "thr_cluster" in case or o.get("clusters_form"):
+            break
+        if opt == "thr_metadata":
+            o["thr_form"] = "metadata"
+        elif opt in ("thr_weight", "thr_weight_explicit"):
+            top = max(p for _, _, p in case["edges"])
+            ws = [w for w in WEIGHTS if 2.0**w / (1 + 2.0**w) <= top]
+            w = rng.choice(ws or [-3])
+            t = 2.0**w / (1 + 2.0**w)
+            if any(p >= t for _, _, p in case["edges"]):
+                o["thr_form"], o["thr_weight"], case["thr"] = opt[4:], w, t
+        elif opt == "registered":
+            o["clusters_form"] = "registered"
+            o["cluster_labels"] = component_labels(rng, case)
+    if not o:
+        del case["opts"]
+    return case
+
+
+CONFUSABLE = {
+    "strweird": [("A", "a"), ("a ", "a"), (" a", "a"), ("01", "1"), ("1", "1.0"), ("\u00e9", "e"), ("", " "), ("NULL", "null"), ("a-__-b", "a-__-B"), ("a%", "ab"), ("a_", "ab")],
+    "bigint": [(2**53, 2**53 + 1), (2**62, 2**62 + 1), (-1, 1), (2**31, -(2**31)), (10, 1)],
+}
+
+
+def confuse_neighbours(rng, c):
+    """Give two neighbours of one record (same dataset) ids that a sloppy comparison would identify: case, padding, leading zero,
+    LIKE wildcards, integers that are equal as doubles."""
+    n = len(c["ids"])
+    adj = [set() for _ in range(n)]
+    for a, b, _ in c["edges"]:
+        adj[a].add(b)
+        adj[b].add(a)
+    hubs = [v for v in range(n) if len(adj[v]) >= 2]
+    if not hubs:
+        return
+    z = rng.choice(hubs)
+    x1, x2 = rng.sample(sorted(adj[z]), 2)
+    u, v = rng.choice(CONFUSABLE[c["idtype"]])
+    sds = list(c["sds"])
+    sds[x2] = sds[x1]
+    if len(set(sds)) != len(set(c["sds"])):
+        return
+    c["sds"] = sds
+    for i in range(n):
+        if i not in (x1, x2) and sds[i] == sds[x1] and c["ids"][i] in (u, v):
+            c["ids"][i] = f"w{n + i}" if c["idtype"] == "strweird" else 2**41 + n + i
+    c["ids"][x1], c["ids"][x2] = u, v
+    if len({(sd, i) for sd, i in zip(c["sds"], c["ids"])}) != n:
+        raise core.HarnessError("confuse_neighbours produced colliding ids")
+
+
+def option_case(rng, n, pairs, chosen, *, engine, tag, multi):
+    idtype = "bigint" if "bigint" in chosen else "strweird" if "strweird" in chosen else None
+    c = decorate(rng, n, pairs, engine=engine, tag=tag, idtype=idtype, k_tables=rng.choice([2, 3]) if multi else 1,
+                 probs="all1" if chosen[0] == "thr_int" else None)
+    if idtype and rng.random() < 0.75:
+        confuse_neighbours(rng, c)
+    apply_options(rng, c, chosen)
+    c["tag"] = tag + "+options"
+    return c
+
+
+SEQUENCES = ["same_pass", "other_thr", "other_edges", "other_linker", "fail_noedge", "fail_no_thr", "fail_no_prob", "pass_then_delete",
+             "pass_then_invalidate", "other_edges_other_thr", "other_linker_names", "other_edges_registered"]
+
+
+def sequence_case(rng, n, pairs, seq, *, engine, tag):
+    """A case whose evaluated call is preceded by other operations on the same database API (and, but for other_linker, the same linker)."""
+    multi = rng.random() < 0.5
+    c = decorate(rng, n, pairs, engine=engine, tag=tag, k_tables=rng.choice([2, 3]) if multi else 1, probs="grid")
+    extra = [rng.choice(["thr_metadata", "pred_named", "pred_api", "repeat_metrics", "uid_col", "null_edges", None, None])]
+    if seq in ("other_linker",):
+        extra.append("default_alias")  # both linkers register their frames under Splink's default names (overwrite)
+    if seq == "other_linker_names":
+        extra.append("input_names")
+    if seq == "other_edges_registered":
+        extra = ["registered"]
+    apply_options(rng, c, [x for x in extra if x])
+
+    def other_edges():
+        m, pp, _ = random_graph(rng, 2 * n)
+        pp = [(a, b) for a, b in pp if a < n and b < n] or [(0, 1)]
+        d = decorate(rng, n, pp, engine=engine, tag="x", probs="grid")
+        ee = [(a, b, 1.0 if k == 0 else p) for k, (a, b, p) in enumerate(d["edges"])]  # at least one edge is kept at any threshold
+        over = {"edges": ee, "null_edges": []}
+        if _o(c).get("clusters_form") == "registered":
+            over["opts"] = dict(c["opts"], cluster_labels=component_labels(rng, dict(c, edges=ee)))
+        return over
+
+    def other_thr():
+        kept_p = sorted({p for _, _, p in c["edges"]})
+        cand = [t for t in (0.0, 0.1, 0.25, 0.3, 0.5, 0.6, 0.75, 0.9, 1.0) if t != c["thr"] and t <= kept_p[-1]]
+        return {"thr": rng.choice(cand)} if cand else {}
+
+    def other_linker():
+        main_multi = len(set(c["sds"])) > 1
+        for _ in range(50):  # another record set of the same kind (one dataset / several datasets)
+            m, pp, _ = random_graph(rng, 12)
+            pp = pp or [(0, 1)]
+            d = decorate(rng, m, pp, engine=engine, tag="x", k_tables=rng.choice([2, 3]) if main_multi else 1, idtype=c["idtype"])
+            if (len(set(d["sds"])) > 1) == main_multi:
+                break
+        else:
+            raise core.HarnessError("no second record set of the same kind found")
+        if main_multi and _o(c).get("aliases") == "default":
+            relabel_datasets(d, [f"__splink__input_table_{j}" for j in range(3)])
+        over = {k: d[k] for k in ("n", "ids", "sds", "edges", "thr") if k in d}
+        over["link_type"] = d.get("link_type", c.get("link_type"))
+        over["null_edges"] = []
+        return over
+
+    P = lambda over, **kw: dict({"op": "pass", "override": over}, **kw)  # noqa: E731
+    c["prelude"] = {
+        "same_pass": lambda: [P({})],
+        "other_thr": lambda: [P(other_thr())],
+        "other_edges": lambda: [P(other_edges())],
+        "other_edges_registered": lambda: [P(other_edges())],
+        "other_edges_other_thr": lambda: [P(dict(other_edges(), **other_thr())), P(other_thr())],
+        "other_linker": lambda: [P(other_linker(), linker="own", **({"settings": "shared"} if rng.random() < 0.5 else {}))],
+        "other_linker_names": lambda: [P(other_linker(), linker="own", **({"settings": "shared"} if rng.random() < 0.5 else {}))],
+        "fail_noedge": lambda: [{"op": "fail", "kind": "noedge"}],
+        "fail_no_thr": lambda: [{"op": "fail", "kind": "no_thr"}],
+        "fail_no_prob": lambda: [{"op": "fail", "kind": "no_prob"}],
+        "pass_then_delete": lambda: [P(other_edges()), {"op": "delete_tables"}],
+        "pass_then_invalidate": lambda: [P(other_thr()), {"op": "invalidate"}],
+    }[seq]()
+    c["sequence"] = seq
+    c["tag"] = tag + "+sequence"
+    return c
 
 
 def fine_threshold_variant(rng, base):
@@ -470,8 +1088,9 @@ def explicit_threshold_variant(rng, base):
     have = {frozenset((a, b)) for a, b, _ in c["edges"]}
     # edges below t_c that join different components would change the components at a lower threshold: lift them out of the graph
     c["edges"] = [(a, b, p) for a, b, p in c["edges"] if p >= tc or find(a) == find(b)]
-    t = rng.choice([0, 0.0, 0.0, 0.05]) if tc > 0.05 else tc
-    weak = [q for q in (0.05, 0.1, 0.25, 0.5, 0.75) if t <= q < tc]
+    t = rng.choice([0, 0.0, 0.0, 0.05, -0.0]) if tc > 0.05 else tc
+    # a probability of exactly 0 lies ON a threshold of 0 / 0.0 / -0.0 (kept: >=)
+    weak = [q for q in (0.0, 0.0, 0.05, 0.1, 0.25, 0.5, 0.75) if t <= q < tc]
     if weak:
         cand = [(a, b) for a in range(n) for b in range(a + 1, n) if find(a) == find(b) and frozenset((a, b)) not in have]
         rng.shuffle(cand)
@@ -535,7 +1154,7 @@ def compare(ctx: core.Ctx, cases: list[dict], drv: core.Driver):
         n = len(c["ids"])
         orc = oracle(c)
         nontrivial = any(cl["k"] >= 3 for cl in orc["comps"]) and bool(orc["kept"])
-        ctx.case({k: c[k] for k in ("ids", "sds", "edges", "thr", "engine")}, nontrivial,
+        ctx.case({k: c[k] for k in ("ids", "sds", "edges", "thr", "engine", "opts", "null_edges", "prelude") if k in c}, nontrivial,
                  sample={"case": slim(c) if n <= 8 else {"tag": c["tag"], "n": n, "n_edges": len(c["edges"]), "thr": c["thr"], "engine": c["engine"]},
                          "impl": {k: r.get(k) for k in ("nodes", "edges", "clusters")} if n <= 8 and isinstance(r, dict) else None})
         ctx.count("family", c["tag"] if not c["tag"].count("+") else "mixed:" + c["tag"].split("+")[0] + "+…")
@@ -545,6 +1164,7 @@ def compare(ctx: core.Ctx, cases: list[dict], drv: core.Driver):
         ctx.count("n_nodes", "2-4" if n <= 4 else "5-8" if n <= 8 else "9-40" if n <= 40 else "41-120" if n <= 120 else ">120")
         ctx.count("components", min(len(orc["comps"]), 10) if len(orc["comps"]) < 10 else ">=10")
         ctx.count("bridges", "none" if not any(orc["bridge"].values()) else "all" if all(orc["bridge"].values()) else "some")
+        count_forms(ctx, c, r)
         pre = hypotheses(c, None, orc)
         if pre is not None:
             ctx.count("excluded", pre)
@@ -560,8 +1180,29 @@ def compare(ctx: core.Ctx, cases: list[dict], drv: core.Driver):
         if n <= 60:
             networkx_crosscheck(c, orc)
         verdict = oracle_verdict(c, r, orc)
+        if verdict is None and "first_call" in r:
+            # compute_graph_metrics was called twice on the same frames: the first result is held to the property as well
+            verdict = oracle_verdict(c, dict(r, **r["first_call"]), orc)
+            verdict = verdict and "first of two identical calls: " + verdict
         if verdict is not None:
             problems.append((c, verdict, True, r))
+            continue
+        bad_more = False
+        for ov, rr in zip(c.get("more_calls") or [], r.get("more_calls") or []):
+            # a further call on the same linker and predictions at another threshold: held to the property as a case of its own
+            sub = _sub(c, ov)
+            orc2 = oracle(sub)
+            ctx.count("further_calls_on_the_same_linker", "checked")
+            why2 = hypotheses(sub, rr, orc2)
+            if why2 is not None:
+                ctx.count("excluded", "further call: " + why2)
+                continue
+            v2 = oracle_verdict(sub, rr, orc2)
+            if v2 is not None:
+                problems.append((sub, v2, True, rr))
+                bad_more = True
+                break
+        if bad_more:
             continue
         m = mres.get(i)
         if m is None:
@@ -578,6 +1219,48 @@ def compare(ctx: core.Ctx, cases: list[dict], drv: core.Driver):
 
     problems += c19_sql.validate(ctx, sql_items, drv)
     return problems
+
+
+def count_forms(ctx: core.Ctx, c: dict, r):
+    """Evidence of the input forms / options / sequences exercised (the plain form is counted as 'default')."""
+    import re
+
+    o = _o(c)
+    ctx.count("form:unique_id_column_name", o.get("uid_col", "default"))
+    ctx.count("form:predictions", o.get("pred_form", "register_table_predict") + ("+predict() columns, shuffled" if o.get("pred_cols") else ""))
+    ctx.count("form:clusters", "registered by the caller, no metadata" if o.get("clusters_form") == "registered" else "from Splink's clustering")
+    if o.get("clusters_form") == "registered":
+        lab = o["cluster_labels"]
+        ctx.count("form:registered_cluster_ids", "int" if not isinstance(lab[0], str) else "composite id of a member" if lab[0] in
+                  {_key(sd, i, _multi(c)) for sd, i in zip(c["sds"], c["ids"])} else "arbitrary str")
+    tf = o.get("thr_form", "explicit")
+    ctx.count("form:threshold", {"explicit": "explicit" + (" (int)" if o.get("thr_int") else "") + (" != clustering threshold" if "thr_cluster" in c else ""),
+                                 "metadata": "omitted: from the clusters' metadata", "weight": "omitted: clustered by match weight",
+                                 "weight_explicit": "explicit, clustered by match weight"}[tf])
+    if tf in ("weight", "weight_explicit"):
+        ctx.count("form:threshold_match_weight", repr(o["thr_weight"]))
+    if tf in ("metadata", "weight") or "thr_cluster" in c or o.get("thr_int"):
+        ctx.count("form:threshold_value", repr(c["thr"]) if c["thr"] in (0, 1) else "other")
+    if _multi(c):
+        ctx.count("form:source_dataset_column_name", o.get("sd_col", "default"))
+        ctx.count("form:multi_table_layout", o.get("layout", "frames") + ("+empty table" if o.get("empty_table") else ""))
+        ctx.count("form:source_dataset_values", "default aliases" if o.get("aliases") == "default" else o.get("sd_names", "a/b/c"))
+    else:
+        ctx.count("form:single_table_alias", o.get("aliases", "default"))
+    ctx.count("form:input_tables", o.get("input_form", "frames") + (", extra columns, own column orders" if o.get("extra_cols") else ""))
+    ctx.count("form:null_probability_rows", min(len(c.get("null_edges") or []), 4))
+    ctx.count("form:probability_0_on_threshold_0", any(p == 0 for _, _, p in c["edges"]) and c["thr"] == 0)
+    ctx.count("form:repeat_metrics", bool(o.get("repeat_metrics")))
+    ctx.count("form:threshold_type", "numpy.float64" if o.get("thr_numpy") else "int" if o.get("thr_int") else "float")
+    if any(op.get("settings") == "shared" for op in c.get("prelude") or []):
+        ctx.count("sequence:two_linkers_one_settings_object", True)
+    if c.get("on_threshold"):
+        ctx.count("form:full_precision_threshold_kind", c["on_threshold"] + ", " + c["engine"])
+        ths = [c["thr"]] + [ov["thr"] for ov in c.get("more_calls") or []]
+        ctx.count("form:edges_exactly_on_a_full_precision_threshold", min(sum(1 for _, _, p in c["edges"] if p in ths), 5))
+    ctx.count("sequence", c.get("sequence", "none"))
+    for w in (r.get("prelude_outcomes") or []) if isinstance(r, dict) else []:
+        ctx.count("sequence:failed_call_outcome", re.sub(r"_[0-9a-f]{9}", "_<hash>", w)[:100])
 
 
 def run_excluded(ctx: core.Ctx, drv: core.Driver):
@@ -612,13 +1295,16 @@ def shrink(case: dict, still_fails) -> dict:
                 break
             cand = dict(cur)
             cand["edges"] = cur["edges"][:k] + cur["edges"][k + 1 :]
+            if "cluster_labels" in _o(cand):  # clusters registered by the caller: they must stay the components of the smaller graph
+                lab = _o(cand)["cluster_labels"]
+                cand["opts"] = dict(cand["opts"], cluster_labels=component_labels(random.Random(0), cand, "str" if isinstance(lab[0], str) else "int"))
             budget -= 1
             if still_fails(cand):
                 cur, changed = cand, True
         used = {a for a, _, _ in cur["edges"]} | {b for _, b, _ in cur["edges"]}
         for v in range(len(cur["ids"]) - 1, -1, -1):
-            if v in used or budget <= 0 or len(cur["ids"]) <= 2:
-                continue
+            if v in used or budget <= 0 or len(cur["ids"]) <= 2 or cur.get("null_edges") or cur.get("prelude") or "cluster_labels" in _o(cur):
+                continue  # (per-node data elsewhere in the case: only edges are removed)
             cand = dict(cur)
             cand["ids"] = cur["ids"][:v] + cur["ids"][v + 1 :]
             cand["sds"] = cur["sds"][:v] + cur["sds"][v + 1 :]
@@ -648,6 +1334,11 @@ def impl_fails_property(case: dict) -> bool:
 def load_case(body: dict) -> dict:
     case = body["replay"]["case"] if "replay" in body else body
     case["edges"] = [tuple(e) for e in case["edges"]]
+    if case.get("null_edges"):
+        case["null_edges"] = [tuple(e) for e in case["null_edges"]]
+    for op in case.get("prelude") or []:
+        if "edges" in op.get("override", {}):
+            op["override"]["edges"] = [tuple(e) for e in op["override"]["edges"]]
     return case
 
 
@@ -659,7 +1350,13 @@ def run(ctx: core.Ctx):
         "caterpillars, random trees, forests, grids, G(n,p)) as 1-3 components plus isolated records with shuffled labels and random edge "
         "orientation; ids int / fixed-width str / mixed-width str, 1-3 input tables with overlapping ids (composite ids), link_and_dedupe / "
         "link_only; probabilities all 1 or on a grid, threshold on a grid value or between two; clustering = Splink's own "
-        "cluster_pairwise_predictions_at_threshold at the same threshold; engines duckdb+sqlite alternating. non-trivial = the thresholded "
+        "cluster_pairwise_predictions_at_threshold at the same threshold; engines duckdb+sqlite alternating; + input forms / options (custom unique id and source dataset column names, one concatenated table "
+        "or tables carrying their own source dataset column, tables given by name, default aliases, an empty table, extra columns in per-table "
+        "order, unusual dataset names, ids: negative / > 2^53 ints, empty / blank / quoted / separator-bearing strings; predictions registered "
+        "three ways, with predict()'s other columns, NULL probabilities; clusters from Splink or registered by the caller under arbitrary "
+        "labels; threshold explicit (float or int) / omitted (metadata) / via threshold_match_weight incl. 0; two identical calls) and operation "
+        "sequences on one API / linker before the evaluated call (other threshold, other predictions re-registered under the same name, another "
+        "linker, failing calls, delete_tables / invalidate_cache). non-trivial = the thresholded "
         "graph has a component with >= 3 records; distinct = hash of (ids, datasets, edges, threshold, engine)."
     )
     ctx.assumptions = [
@@ -667,6 +1364,8 @@ def run(ctx: core.Ctx):
         "the clustering handed to compute_graph_metrics is the connected components of the thresholded graph (it is produced by Splink's clustering at the same threshold and checked by BFS; C05 is the property about that step); the model takes these cluster labels as input",
         "igraph's Graph.bridges is trusted in the proof (a parameter of the model); the compiled model uses a naive edge-removal bridge finder and the oracle another one, cross-checked against networkx",
         "SQL atoms not modelled are trusted: COUNT(*) FILTER, window COUNT after GROUP BY, LEFT JOIN, row_number(); the row order behind row_number() is arbitrary (the model is run with a seeded random order)",
+        "a prediction row whose match_probability is NULL is no edge of the thresholded graph at any threshold (NULL >= t is not true): such rows are part of the input table only; the oracle and the model are given the graph without them",
+        "in an operation sequence only the LAST call is held to the property (and both calls of two identical ones); the calls before it run on the same database API / linker and must not raise, except those meant to (their outcome is recorded under sequence:failed_call_outcome)",
         "quotients are compared at relative 1e-9 (the model returns exact numerator/denominator pairs, the harness divides in IEEE double)",
     ]
     from harness.props import c19_sql
